@@ -63,6 +63,7 @@ def main(argv):
         cases.append(alt)
     # the multi-client port declared after / between other provides ports; twelve ports
     from checks import shellrun as SR
+    cases += SR.pointer_extern_cases()
     cases += SR.prefix_name_cases()[1:3] + SR.many_cases()[2:] if tier == 'quick' else SR.prefix_name_cases() + SR.many_cases() + SR.mc_name_containment_cases()
     io, mo = BC.run_builds(cases)
     plans = legb.plans_for(cases)
